@@ -821,6 +821,22 @@ def check_statistics(ctx: Ctx) -> None:
         calls = [c for c in ast.walk(fp) if isinstance(c, ast.Call) and dotted(c.func) == fname]
         ok = len(calls) == 1 and isinstance(calls[0].args[0], ast.Call) and last_attr(calls[0].args[0]) == "compute_cdf"
     ctx.ob("19.7-tails", cname(PST, "ParametricStatistics", "compute_probability"), bool(ok), "the parametric probability is 1 - cdf(threshold) when greater, cdf(threshold) otherwise", node=(sel or [fp])[0], stmt="1 - cdf iff greater")
+    # component i of a variable: threshold i with the distribution of component i
+    comps = [n for n in ast.walk(fp) if isinstance(n, ast.ListComp) and any(isinstance(c, ast.Call) and last_attr(c) == "compute_cdf" for c in ast.walk(n.elt))]
+    ok = len(comps) == 1 and len(comps[0].generators) == 1
+    if ok:
+        g = comps[0].generators[0]
+        ok = isinstance(g.iter, ast.Call) and dotted(g.iter.func) in ("enumerate", "zip")
+        if ok and dotted(g.iter.func) == "enumerate" and isinstance(g.target, ast.Tuple):
+            i, d = (dotted(e) for e in g.target.elts)
+            c = next(c for c in ast.walk(comps[0].elt) if isinstance(c, ast.Call) and last_attr(c) == "compute_cdf")
+            a = c.args[0] if c.args else None
+            ok = dotted(c.func.value).split(".")[0] == d and isinstance(a, ast.Subscript) and dotted(a.slice) == i and isinstance(a.value, ast.Subscript)
+        elif ok:
+            names = [dotted(e) for e in g.target.elts] if isinstance(g.target, ast.Tuple) else []
+            c = next(c for c in ast.walk(comps[0].elt) if isinstance(c, ast.Call) and last_attr(c) == "compute_cdf")
+            ok = len(names) == 2 and c.args and dotted(c.args[0]) in names and dotted(c.func.value).split(".")[0] in names and dotted(c.args[0]) != dotted(c.func.value).split(".")[0]
+    ctx.ob("19.7-tails", cname(PST, "ParametricStatistics", "compute_probability"), bool(ok), "component i of a variable is compared with ITS threshold: the cdf of the i-th fitted distribution is evaluated at the i-th threshold", node=(comps or [fp])[0], stmt="threshold i with distribution i")
     for cls, rel, f in (("EmpiricalStatistics", ES, es.methods["compute_range"]), ("ParametricStatistics", PST, pst.methods["compute_range"])):
         subs = [n for n in walk_body(f) if isinstance(n, ast.BinOp) and isinstance(n.op, ast.Sub)]
         ok = len(subs) == 1
@@ -900,6 +916,7 @@ WITNESSES = [
     {"name": "empirical-tail-swapped", "file": ES, "old": "        operator = ge if greater else le\n        return {\n            name: mean(\n                operator(", "new": "        operator = le if greater else ge\n        return {\n            name: mean(\n                operator(", "expect": "19.7"},
     {"name": "parametric-maximum-is-numerical", "file": PST, "old": "                distribution.value.math_upper_bound\n                for distribution", "new": "                distribution.value.num_upper_bound\n                for distribution", "expect": "19.7"},
     {"name": "empirical-mean-is-median", "edits": [{"file": ES, "old": "from numpy import mean\n", "new": "from numpy import mean\nfrom numpy import median\n"}, {"file": ES, "old": "name: mean(self.dataset.get_view(variable_names=name).to_numpy(), 0)", "new": "name: median(self.dataset.get_view(variable_names=name).to_numpy(), 0)"}], "expect": "19.7"},
+    {"name": "parametric-probability-first-threshold", "file": PST, "old": "func(distribution.value.compute_cdf(new_thresh[name][index]))", "new": "func(distribution.value.compute_cdf(new_thresh[name][0]))", "expect": "19.7"},
     {"name": "parametric-mean-is-std", "file": PST, "old": "                distribution.value.mean for distribution in self.__distributions[name]", "new": "                distribution.value.standard_deviation for distribution in self.__distributions[name]", "expect": "19.7"},
 ]
 TWINS = [
